@@ -17,6 +17,7 @@ Proof.
   intros frows h st h' e H. unfold run_step in H. destruct (mk frows h (s_rv st) (s_int st) (s_newdel st)) as [[[o aff] e0]|]; [|inversion H].
   destruct (commit frows h (s_rv st) o aff (s_newdel st)); inversion H; subst. eauto.
 Qed.
+Print Assumptions run_step_mk.
 
 (* the rows a committed delete selected at its (possibly stale) read version are invisible afterwards *)
 Theorem C04_single_image_delete : forall frows fcontent h rv rows nd h' e,
